@@ -168,7 +168,7 @@ def check_unit(name, canary=True, timeout=600):
         pass
     for e in errors:
         if "rlimit" in e["msg"] or "timed out" in e["msg"] or "resource limit" in e["msg"].lower():
-            raise Inconclusive("verus resource limit in unit %s fn %s: %s" % (name, e["fn"], e["msg"]))
+            e["rlimit"] = True   # undecided for this function only; the caller consults the witness harness
     res = {"unit": name, "ok": bool(vr.get("success")), "verified": vr.get("verified"), "n_errors": vr.get("errors"),
            "functions": funcs, "errors": errors, "meta": meta, "wall": wall, "trusted": scan_trusted(text),
            "smt_ms": js.get("times-ms", {}).get("smt", {}).get("smt-run")}
